@@ -1,6 +1,8 @@
 package rules
 
 import (
+	"go/token"
+
 	"golang.org/x/tools/go/ssa"
 
 	"tdverif/checker/engine"
@@ -184,6 +186,33 @@ func sliceRoot(v ssa.Value) (root ssa.Value, lo int64, ok bool) {
 		v = engine.Unwrap(sl.X)
 	}
 	return v, lo, true
+}
+
+// closesNonNil: function h calls Close on its parameter p on every path to an
+// exit on which p is not known to be nil.
+func closesNonNil(h *ssa.Function, p *ssa.Parameter) bool {
+	nilEdges := engine.EdgesWhere(h, func(k engine.Cmp) bool {
+		return engine.Unwrap(k.X) == ssa.Value(p) && engine.IsNil(k.Y) && k.Op == token.EQL
+	})
+	isClose := func(i ssa.Instruction) bool {
+		ci, ok := i.(ssa.CallInstruction)
+		return ok && ci.Common().IsInvoke() && ci.Common().Method.Name() == "Close" && engine.Unwrap(ci.Common().Value) == ssa.Value(p)
+	}
+	closes := false
+	for _, call := range engine.Calls(h) {
+		if isClose(call) {
+			closes = true
+		}
+	}
+	if !closes || len(h.Blocks) == 0 {
+		return false
+	}
+	for _, r := range exits(h) {
+		if (engine.PathQuery{Fn: h, FromBlk: h.Blocks[0], Cut: nilEdges, Barrier: isClose}).Reaches(r) {
+			return false
+		}
+	}
+	return true
 }
 
 // instrsWithHelpers visits the instructions of fn and of the same-package
